@@ -124,6 +124,16 @@ def gen_case(rng, i):
             continue
         names.add(name)
         tags.append({"name": name, "annotated": rng.random() < 0.5, "commit": rng.randrange(ncommits)})
+    if rng.random() < 0.2:
+        # one more tag that is a tag of an earlier annotated tag (a major-only name, or another name)
+        ann = [t for t in tags if t["annotated"] and not t.get("of")]
+        if ann:
+            base = rng.choice(ann)
+            pb = parse_semver(base["name"])
+            nm = ("v%d" % pb[0]) if pb and rng.random() < 0.7 else "alias-of-" + base["name"].replace("+", "_")
+            if nm not in names:
+                names.add(nm)
+                tags.append({"name": nm, "annotated": True, "commit": base["commit"], "of": base["name"]})
     bad = None
     if rng.random() < 0.06:
         bad = rng.choice(BAD_DOTTED)
@@ -180,6 +190,13 @@ FIXED_CASES = [
      "version": "v3.0.1", "dirty": "clean", "dryrun": "false", "envloc": "..", "packed": True},
     {"i": -13, "ncommits": 2, "tags": [{"name": "v3", "annotated": False, "commit": 0}, {"name": "v3.0.0", "annotated": True, "commit": 0}], "version": "v3.1.0",
      "dirty": "clean", "dryrun": "false", "envloc": "..", "packed": True},
+    # the major tag is a tag of an (annotated) full-version tag
+    {"i": -14, "ncommits": 2, "tags": [{"name": "v3.0.1", "annotated": True, "commit": 0}, {"name": "v3", "annotated": True, "commit": 0, "of": "v3.0.1"}], "version": "v3.1.0",
+     "dirty": "clean", "dryrun": "false", "envloc": "..", "packed": False},
+    {"i": -15, "ncommits": 2, "tags": [{"name": "v3.0.1", "annotated": True, "commit": 0}, {"name": "v3", "annotated": True, "commit": 0, "of": "v3.0.1"}], "version": "v3.0.1",
+     "dirty": "clean", "dryrun": "false", "envloc": "..", "packed": True},
+    {"i": -16, "ncommits": 3, "tags": [{"name": "v2.0.0", "annotated": True, "commit": 0}, {"name": "v2.0.1", "annotated": True, "commit": 1, "of": "v2.0.0"}, {"name": "v2", "annotated": True, "commit": 1, "of": "v2.0.1"}],
+     "version": "v2.0.2", "dirty": "clean", "dryrun": "false", "envloc": ".", "packed": False},
     {"i": -10, "ncommits": 2, "tags": [{"name": "v3.0.5", "annotated": False, "commit": 0}], "version": "v3.1",
      "dirty": "clean", "dryrun": "true", "envloc": ".", "packed": False},
 ]
@@ -261,7 +278,10 @@ def build_repo(ctx, case):
         with open(os.path.join(outer, "mockery-tools.env"), "w") as f:
             f.write(envtext)
     for t in case["tags"]:
-        if t["annotated"]:
+        if t.get("of"):
+            # a tag of a tag: `git tag -a v3 v3.0.1` with an annotated v3.0.1 creates a tag object that points at a tag object
+            git(["tag", "-a", "-m", t["name"], t["name"], t["of"]], repo)
+        elif t["annotated"]:
             git(["tag", "-a", "-m", t["name"], t["name"], commits[t["commit"]]], repo)
         else:
             git(["tag", t["name"], commits[t["commit"]]], repo)
